@@ -614,7 +614,11 @@ func (e *Engine) convert(st *State, x Value, to types.Type, pos token.Pos) Value
 		base := e.freshBase()
 		e.copyBytes(st, base, e.k64(0), x.L[0], x.L[1], x.L[2])
 		nb := c.Ite(c.Eq(x.L[2], e.k64(0)), e.k64(0), base)
-		return Value{T: to, L: []*smt.Term{nb, e.k64(0), x.L[2]}}
+		// the copy has the content of the bytes it was made from (content ids are what string equality compares; the id
+		// of a byte view stands for its bytes at this moment - views are not compared across writes in the contracts)
+		sv := Value{T: to, L: []*smt.Term{nb, e.k64(0), x.L[2]}}
+		e.axiom(c.Eq(e.strID(sv), e.strID(Value{T: to, L: []*smt.Term{x.L[0], x.L[1], x.L[2]}})))
+		return sv
 	case isByteSlice(to) && isString(from):
 		base := e.freshBase()
 		e.copyBytes(st, base, e.k64(0), x.L[0], x.L[1], x.L[2])
